@@ -10,7 +10,7 @@ from ..facts import physics_seeds, LONG, OFFD, QHACALC, MODE_DEP, c_intrinsic, K
 from ..libsum import lib_class
 from ..model import dotted_name, src, body_wo_doc
 from ..report import AnalysisError
-from ..sym import Ev, Obj, LibV, AVG, as_sym, is_indexed, Indexed
+from ..sym import Ev, Obj, LibV, AVG, as_sym, is_sym, is_indexed, Indexed
 from . import C01, C05, C11
 from .C12 import Proxy
 
@@ -109,6 +109,61 @@ def r_override(ctx, model):
     ctx.floor("overridden qha methods", n, 2)
 
 
+def first_sym(v):
+    """the per-element expression of an elementwise comprehension (nested lists collapse to their innermost element)"""
+    from ..sym import Tup
+    while isinstance(v, Tup) and v.items:
+        v = v.items[0]
+    return as_sym(v)
+
+
+def r_order(ctx, model):
+    """read_input folded under three orders of the volume blocks: decreasing is taken as is; increasing and shuffled are refused
+    (the mode interpolation and the static fits read the file order, so a silent re-ordering of QHA's copy is not equivalent)"""
+    from ..dfmodel import SeqV, DF_LIB
+    from ..sym import RaisedV, is_indexed
+    VOLS, ENER, FR = sp.Symbol("VOLS", positive=True), sp.Symbol("ENER", real=True), sp.Symbol("FREQS", real=True)
+    ref = f"{QHACALC}.read_input"
+    f = model.func(ref)
+    w = model.where(ref, f)
+    for scenario in ("decreasing", "increasing", "shuffled"):
+        qp = Obj("cij.io.traditional.qha_input:QPointData", {"coord": sp.Symbol("QC"), "modes": FR, "__fields__": ["coord", "modes"]})
+        vol = Obj("cij.io.traditional.qha_input:VolumeData", {"volume": VOLS, "energy": ENER, "q_points": SeqV(qp), "pressure": sp.Symbol("PIN")})
+        wt = Obj("cij.io.traditional.qha_input:QPointWeight", {"coord": sp.Symbol("QC"), "weight": sp.Symbol("WQ"), "__fields__": ["coord", "weight"]})
+        inp = Obj("cij.io.traditional.qha_input:QHAInputData", {"nm": sp.Integer(2), "volumes": SeqV(vol), "weights": SeqV(wt)})
+
+        def mono(ev, a, k):
+            x = as_sym(a[0])
+            reversed_ = any(is_indexed(t) and "::-1" in str(t.args[1]) for t in sp.preorder_traversal(x))
+            flipped = any(getattr(t, "func", None) and str(t.func) in ("FLIP",) for t in sp.preorder_traversal(x))
+            rev = reversed_ or flipped
+            if VOLS not in x.free_symbols:
+                raise AnalysisError("is_monotonic_decreasing applied to something that is not the volume list")
+            if scenario == "shuffled":
+                return False
+            return (scenario == "decreasing") != rev
+
+        intr = {"qha.tools.is_monotonic_decreasing": mono, "numpy.flip": lambda ev, a, k: sp.Function("FLIP")(as_sym(a[0])),
+                "numpy.array": lambda ev, a, k: first_sym(a[0])}
+        ev = Ev(model, {}, intr, ctx=ctx)
+        obj = Obj(QHACALC)
+        try:
+            ev.call_def(f, model.mods["cij.core.qha_adapter"], ref, [obj, inp], {})
+            outcome = "accepted"
+        except RaisedV as e:
+            outcome = f"raises {e.exc_name}"
+        if scenario == "decreasing":
+            v = obj.attrs.get("_volumes")
+            ok = outcome == "accepted" and is_sym(v) and sp.simplify(v - VOLS) == 0
+            ctx.check(ok, "decreasing volume blocks are handed to QHA in file order", w, expected="_volumes = the file's volumes", found=f"{outcome}; _volumes = {v}",
+                      explanation="well-ordered input is refused or re-ordered", key="order.decreasing")
+        else:
+            ctx.check(outcome.startswith("raises"), f"{scenario} volume blocks are refused", w, expected="an error", found=outcome,
+                      explanation=f"a phonon file whose volume blocks are listed in {scenario} order is accepted: QHA's copy and the mode interpolation / "
+                                  f"static fits (which read the file order) then disagree, so the results differ from those of the decreasing listing",
+                      key=f"order.{scenario}")
+
+
 def r_keys(ctx, model):
     ref = "cij.io.traditional.elast_dat:_find_modulus_key"
     f = model.func(ref)
@@ -161,6 +216,25 @@ def r_independent(ctx, model):
     da = DefiniteAssignment(fn)
     carried = sorted({name for name, node, path in da.problems if name in assigned})
     aug = [src(st) for st in ast.walk(li) if isinstance(st, ast.AugAssign)]
+    rets = [s_ for s_ in ast.walk(f) if isinstance(s_, ast.Return)]
+    outputs = {e.id for e in rets[0].value.elts if isinstance(e, ast.Name)} if rets and isinstance(rets[0].value, ast.Tuple) else set()
+    mutated, read = set(), set()
+    cross = []
+    for nn in ast.walk(li):
+        if isinstance(nn, ast.Subscript) and isinstance(nn.value, ast.Name):
+            if isinstance(nn.ctx, ast.Store):
+                mutated.add(nn.value.id)
+            elif nn.value.id in outputs:
+                cross.append(src(nn))
+        if isinstance(nn, ast.Call) and isinstance(nn.func, ast.Attribute) and isinstance(nn.func.value, ast.Name) \
+                and nn.func.attr in ("append", "add", "update", "setdefault", "pop", "extend", "insert"):
+            mutated.add(nn.func.value.id)
+        if isinstance(nn, ast.Name) and isinstance(nn.ctx, ast.Load):
+            read.add(nn.id)
+    stateful = sorted((mutated & read) - outputs - assigned)
+    carried = sorted(set(carried) | set(stateful))
+    if cross:
+        carried.append(f"reads of output arrays {cross[:2]}")
     ctx.check(not carried and not aug, "no loop-carried state in the (q, mode) loop", model.where(ref, li), expected="every name assigned in the loop body is assigned before it is read",
               found=f"carried: {carried}; augmented assignments: {aug[:2]}",
               explanation="a value computed for one (q, mode) pair leaks into the next iteration: the result at (q, m) depends on the order "
@@ -178,6 +252,7 @@ RULES = [
     ("R13.1", "q-average with normalised weights in file order; unweighted mode mean", r_weights),
     ("R13.2", "mode-dependent atoms only inside the symmetric average; no positional indexing in the folded formulas", r_symmetric),
     ("R13.3", "overrides keep the refusals of the qha methods they replace (installed source)", r_override),
+    ("R13.3b", "read_input folded under decreasing / increasing / shuffled block order: taken as is / refused / refused", r_order),
     ("R13.4", "static-table keys canonicalised for any prefix / letter case", r_keys),
     ("R13.5", "static fits share one reference volume between fit and evaluation", r_fits),
     ("R13.6", "per-(q, mode) independence of the mode interpolation", r_independent),
